@@ -32,6 +32,9 @@ def one(e, base):
     elif e.get('generator') == 'invert-ifs':
         from invert_ifs import main as invert
         invert(d, 'cxx')
+    elif e.get('generator') == 'swap-eq':
+        from swap_eq import main as swap
+        swap(d)
     elif e.get('generator') == 'insert-noops':
         from insert_noops import main as noops
         noops(d)
